@@ -19,6 +19,7 @@ type Options struct {
 
 // Exec generates the verification condition of one function under contract.
 type Exec struct {
+	assertHit map[*CallAssert]bool
 	prog         *Program
 	vc           *VC
 	opts         Options
